@@ -11,7 +11,7 @@ import numpy as np
 
 from .. import gens
 from ..harness import watchdog, WatchdogTimeout, MonitorAbort, digest
-from ..monitors import SiftProbe, FastClock
+from ..monitors import SiftProbe, FastClock, thread_probe
 from ..refmodels import count_extrema
 
 MANIFEST = {
@@ -139,6 +139,11 @@ def check_case(ctx, case):
     paths = probe.paths()
     ctx.case(dig, imf.ndim == 2 and imf.shape[1] >= 2)
     ctx.count('sifts_judged')
+    # a decomposition belongs to the caller once it is returned: it is kept (untouched) and looked at again after later calls
+    if len(x) <= 3000:
+        HELD.append((imf, digest(np.asarray(imf)), case))
+        if len(HELD) >= 40:
+            recheck_held(ctx)
     ctx.add('path_signatures', ''.join(sorted(set(paths))))
     if 'B' in paths:
         ctx.count('sifts_with_pathB')
@@ -178,8 +183,35 @@ def check_case(ctx, case):
     return paths
 
 
+HELD = []
+
+
+def recheck_held(ctx):
+    for imf, dg, case in HELD:
+        ctx.count('held_results_rechecked')
+        if digest(np.asarray(imf)) != dg:
+            ctx.violation('result-changed-after-return', 'a decomposition returned earlier (and not touched by the caller) changed while later sifts '
+                          'ran: the returned array is not the caller\'s own (family %s, %d samples)' % (case['family'], len(case['x'])), case)
+            break
+    del HELD[:]
+
+
+def thread_cases(seed):
+    r = np.random.default_rng(seed)
+    n = int(gens.pick(r, [200, 400, 1000]))
+    t = np.arange(n)
+    sigs = [r.standard_normal(n), np.sin(2 * np.pi * t / 17.3) + .4 * np.sin(2 * np.pi * t / 71.) + .1 * r.standard_normal(n),
+            t / n + 0.0, np.full(n, 2.5), np.cumsum(r.standard_normal(n))]
+    from emd import sift as S
+    return [(lambda v: (lambda: S.sift(v.copy())))(v) for v in sigs], {'seed': int(seed), 'n': n}
+
+
 def run_shard(ctx):
     rng = ctx.rng
+    if ctx.shard % 2 == 0:
+        # schedules: sifts of equally long recordings (oscillatory ones next to a ramp and a constant) from five threads at once
+        calls, tcase = thread_cases(int(rng.integers(1 << 30)))
+        thread_probe(ctx, 'sift (%d samples)' % tcase['n'], calls, 25, tcase)
     n = NCASES[ctx.tier] // ctx.nshards
     corpus = []
     done = 0
@@ -210,6 +242,7 @@ def run_shard(ctx):
                         'x_head': np.round(case['x'][:6], 4), 'exit_paths': paths})
         if paths and 'B' in paths and len(corpus) < 200:
             corpus.extend(neighbours(rng, case))
+    recheck_held(ctx)
 
 
 def finalize(agg, tier):
@@ -224,4 +257,10 @@ def finalize(agg, tier):
 
 
 def replay(ctx, case):
+    if case.get('kind') == 'threads':
+        for _ in range(5):
+            calls, tcase = thread_cases(case['seed'])
+            if not thread_probe(ctx, 'sift (%d samples)' % tcase['n'], calls, 25, tcase):
+                break
+        return
     print('exit paths:', check_case(ctx, case))
